@@ -647,6 +647,7 @@ def extra_bevy(prop, tier, seed, profiles):
     prev, cfg, dirty, chain_pending, stale, key_set = None, None, False, None, False, False
     cur_slot, last_frame = "-", None
     clock_paused, clock_speed = False, 1.0
+    reinserted, pending_ext = False, []
     blk_dyadic, blk_mag, blk_tls = True, 1.0, {}
     frame_key, other_ext, nframes = None, False, 0     # selector key at the end of the last frame; non-setkey external op since
     moved_in_frame = False                             # the chain moved the key during the last frame (select may see it only in the next one)
@@ -695,7 +696,7 @@ def extra_bevy(prop, tier, seed, profiles):
             continue
         if w[0] == "tpause": clock_paused = w[1] == "1"; continue
         if w[0] == "tspeed": clock_speed = struct.unpack("<d", struct.pack("<Q", int(w[1])))[0]; continue
-        if w[0] not in ("bapp", "frame", "setkey", "enable", "breset", "settl", "setpos"): continue
+        if w[0] not in ("bapp", "frame", "setkey", "enable", "breset", "settl", "setpos", "setcomp", "reinsel"): continue
         if w[-1].startswith("@") and w[-1] != "@0": continue      # an operation on another entity of the App
         if o.startswith(("panic", "bad")): prev = None; continue
         cur = parse_bevy(o)
@@ -708,8 +709,13 @@ def extra_bevy(prop, tier, seed, profiles):
             frame_key, other_ext, nframes, moved_in_frame = None, False, 0, False
             continue
         if prev is None: prev = cur; frame_key, other_ext, nframes, moved_in_frame = None, False, 0, False; continue
-        if w[0] in ("enable", "breset", "settl", "setpos"): other_ext = True
+        if w[0] in ("enable", "breset", "settl", "setpos", "setcomp", "reinsel"): other_ext = True
         if w[0] == "settl": cur_slot = w[1]
+        if w[0] == "reinsel" and cfg is not None and cfg["sel"] != "none":
+            cfg["sel"] = w[1]    # the selector was replaced
+            reinserted = not any(x in ("enable", "breset", "settl", "setpos") for x in pending_ext)
+        if w[0] in ("enable", "breset", "settl", "setpos", "setkey"): pending_ext.append(w[0]); reinserted = False if w[0] != "setkey" else reinserted
+        if w[0] == "setcomp" and prev["state"] == 3: stale = True   # a foreign write after the end is not undone by the animator
         if w[0] == "settl" and prev["state"] == 3: stale = True   # re-targeting while Ended does not restart (documented)
         if w[0] == "breset": stale = False
         if w[0] != "frame":
@@ -792,6 +798,17 @@ def extra_bevy(prop, tier, seed, profiles):
                 hist["setkey-switches"] += 1
                 if cur["comp"] != prev["comp"]:
                     fail(L, "changing the key does not make the component jump", o, str(prev["comp"]))
+            # a selector inserted over the old one has not been applied yet: its key's timeline plays from the beginning (or,
+            # without a timeline for the key, animation stops) in the next frame, whatever the old selector had applied
+            if reinserted and prev["enabled"] and 3 not in prev["ev"] and 3 not in cur["ev"] and prev["key"] is not None and cur["key"] == prev["key"]:
+                slots = cfg["sel"].split(",")
+                k = prev["key"]
+                hist["reinsert-checked"] = hist.get("reinsert-checked", 0) + 1
+                if k < len(slots) and slots[k] != "-":
+                    if cur["state"] == 0 or (cur["state"] in (1, 2) and cur["pos"] != delta):
+                        fail(L, "a newly inserted selector plays its key's timeline from the beginning", o, f"state in 1..3 and position {delta}")
+                elif cur["state"] != 0:
+                    fail(L, "a newly inserted selector whose key has no timeline stops animation", o, "state 0")
             # positive direction: the governed animator ended in the last frame (its own transition to Ended, announced by
             # an Ended event) while key k was active, nothing but key assignments happened since, the key is still k at the
             # start of this frame and the chain maps k -> k' (last entry for k wins, HashMap insert): this frame moves the
@@ -822,6 +839,7 @@ def extra_bevy(prop, tier, seed, profiles):
                     f = dict(line=L, directive="relational chain fires only when its own animator ended", op=ops[L], got=o, want=impl[L - 1], ops=P.block_of(ops, L), other_animator=True)
                     fails.append(f)
         last_frame = dict(before=prev, after=cur)
+        reinserted, pending_ext = False, []
         moved_in_frame = cur["key"] != prev["key"]
         own_end = prev["state"] != 3 and cur["state"] == 3 and 3 in cur["ev"]
         prev, dirty, key_set = dict(cur, frame_state=cur["state"], own_end=own_end), False, False
